@@ -370,8 +370,16 @@ def _formalize(tree):
             'prop = property(partial(fget, ref_name=primary_key, alt_prop=prop), '
             'partial(fset, name=ref_key, ref_name=primary_key, alt_prop=prop))',
             'setattr(source_class.clazz, ref_key, prop)']
-    if _tup(lp.target) != 'ref_key, primary_key' or [ast.unparse(s) for s in lp.body] != want:
+    guard = 'if not isinstance(prop, property):\n    prop = None'
+    got = [ast.unparse(s) for s in lp.body]
+    if _tup(lp.target) != 'ref_key, primary_key':
         raise ValueError('formalize: wrapping loop of unexpected shape')
+    if got == want:
+        alt_guard = 'false'
+    elif got == [want[0], guard] + want[1:]:
+        alt_guard = 'true'          # only a PROPERTY installed earlier under the name becomes alt_prop
+    else:
+        raise ValueError('formalize: wrapping loop of unexpected shape: %s' % got)
     it = ast.unparse(lp.iter)
     if it == 'zip(self.source_keys, self.target_keys)':
         zipped = '(.source, .target)'
@@ -381,7 +389,7 @@ def _formalize(tree):
         raise ValueError('formalize: wrapping loop iterates %s' % it)
     if 'source_class = self.source_link.to_metaclass' not in [ast.unparse(s) for s in f.body]:
         raise ValueError('formalize: source_class is not source_link.to_metaclass')
-    return link, cond, zipped
+    return link, cond, zipped, alt_guard
 
 
 # --------------------------------------------------------------------------- emit
@@ -502,7 +510,7 @@ def generate(repo_dir):
     unrelate = _pair_prog(tree, 'unrelate')
     dstmts = _delete(tree)
     phases, relate_args = _new(tree)
-    fget_link, fget_cond, zipped = _formalize(tree)
+    fget_link, fget_cond, zipped, alt_guard = _formalize(tree)
     out = [HEADER]
     out.append('/-- the two links of an association, in the order define_association adds them to the classes\' `links` -/')
     out.append('def linkDefs : List LinkDef :=\n  [ ' + ',\n    '.join(
@@ -523,6 +531,9 @@ def generate(repo_dir):
     out.append('def fgetLink : LinkSel := %s\n' % fget_link)
     out.append('def fgetFallback : BExp FgetAtom := %s\n' % fget_cond)
     out.append('def fgetZip : End × End := %s\n' % zipped)
+    out.append('/-- `alt_prop` is what was installed earlier under the name ONLY if that is a property (a method or other class')
+    out.append('    attribute of the same name is ignored): `hasAlt` means "an earlier formalisation of this attribute exists" -/')
+    out.append('def fgetAltIsPropertyOnly : Bool := %s\n' % alt_guard)
     out.append('end Pyx.Gen.RelateShape\n')
     return [('RelateShape.lean', '\n'.join(out))]
 
